@@ -126,6 +126,8 @@ def store(pid, m):
     readme = open(dst + "/README.md").read() if os.path.exists(dst + "/README.md") else ""
     meta_f = dst + "/meta.json"
     meta = json.load(open(meta_f)) if os.path.exists(meta_f) else {}
+    summ = json.load(open("/verif/seeded/summaries.json")).get(key, {})
+    meta.update(summ)
     caught = sorted(c for c, r in d.get("checks", {}).items() if r["exit"] == 1 and r["violation"])
     broken = sorted(c for c, r in d.get("checks", {}).items() if r["exit"] not in (0, 1) or (r["exit"] == 1 and not r["violation"]))
     meta.update({
